@@ -13,10 +13,10 @@ package vsched
 
 import (
 	"fmt"
-	"sync"
 	"runtime"
 	"runtime/debug"
 	"strings"
+	"sync"
 )
 
 // Prober is a side-effect free enabledness test of a blocked operation.
@@ -31,7 +31,54 @@ const (
 	tDone
 )
 
+// Access is one element of a transition's footprint: an object (lock, channel, atomic variable,
+// stream, context ...) identified by an address, and whether the access can conflict with reads.
+// Obj == 0 stands for "unknown effect" and conflicts with everything.
+type Access struct {
+	Obj   uintptr `json:"o"`
+	Write bool    `json:"w,omitempty"`
+}
+
+// Footprint of a transition (the code a thread executes from one scheduling point to the next).
+type Footprint []Access
+
+// Conflicts reports whether two transitions may not commute.
+//
+//go:norace
+func (a Footprint) Conflicts(b Footprint) bool {
+	for _, x := range a {
+		if x.Obj == 0 {
+			return true
+		}
+	}
+	for _, y := range b {
+		if y.Obj == 0 {
+			return true
+		}
+	}
+	for _, x := range a {
+		for _, y := range b {
+			if x.Obj == y.Obj && (x.Write || y.Write) {
+				return true
+			}
+		}
+	}
+	return false
+}
+
+// Sleeper is a thread whose next transition has already been explored from an equivalent state.
+// Object identities are addresses, which differ from one execution to the next, so nothing but
+// the thread id is carried between executions: the footprint of a sleeping thread's next
+// transition is recomputed in the current execution from what the thread has announced (the
+// operation it is parked at) plus the locks it holds (the only other objects a transition can
+// affect, by unlocking them); transitions with any other effect are "wild" and never put to sleep.
+type Sleeper struct {
+	Thread int `json:"t"`
+}
+
 type thread struct {
+	pend    Footprint // footprint announced for the next transition
+	held    Footprint // locks currently held (a transition may release them)
 	id      int
 	site    string
 	wake    uint32
@@ -41,6 +88,7 @@ type thread struct {
 	exiting bool
 	steps   int
 	fn      func()
+	timers  int
 }
 
 // ChoicePoint is one recorded nondeterministic decision.
@@ -50,6 +98,11 @@ type ChoicePoint struct {
 	Chosen  int    `json:"c"`
 	Preempt bool   `json:"p,omitempty"` // a non-zero alternative here costs one preemption
 	Dev     bool   `json:"d,omitempty"` // a non-zero alternative here costs one deviation
+	// partial-order reduction bookkeeping (thread choices only)
+	Threads []int     `json:"th,omitempty"` // thread id of every alternative
+	Sleep   []Sleeper `json:"sl,omitempty"` // sleep set at this node (before the choice)
+	Wild    bool      `json:"w,omitempty"`  // the transition executed after the choice had effects beyond its announced footprint
+	Done    bool      `json:"dn,omitempty"` // that transition has completed (its Wild flag is final)
 }
 
 // PanicInfo records a panic that escaped a controlled thread.
@@ -71,6 +124,7 @@ type Result struct {
 	Threads    int
 	Divergence string // non-empty: replay prefix did not match (harness broken)
 	Switches   int
+	Pruned     bool // the execution was cut because every enabled thread was asleep (redundant)
 }
 
 // Config of one execution.
@@ -81,6 +135,9 @@ type Config struct {
 	MaxTimerFire int           // bound on spontaneous virtual-timer firings when idle (default 64)
 	TimerDev     bool          // offer "earliest timer fires now" as an environment deviation
 	ClockTick    bool          // offer "the millisecond clock ticks before this Now()" as a deviation
+	POR          bool          // maintain sleep sets (partial-order reduction)
+	SleepAt      int           // index of the choice point at which Sleep is installed (with POR)
+	Sleep        []Sleeper     // sleep set valid at choice point SleepAt, before its choice
 }
 
 // Sched is the state of the running execution.
@@ -101,6 +158,12 @@ type Sched struct {
 	locals   map[string]interface{}
 	nextTID  int
 	noBranch bool
+	// partial-order reduction state
+	sleep    []Sleeper
+	seg      Footprint // footprint of the transition currently executing
+	segOwner *thread
+	segCP    int // index of the trace entry that started the current transition (-1: not recorded)
+	ctxKids  map[uintptr][]uintptr
 }
 
 var cur *Sched
@@ -136,6 +199,7 @@ func Run(cfg Config, body func()) *Result {
 	}
 	s := &Sched{cfg: cfg, res: &Result{}, closed: map[uintptr]bool{}, locals: map[string]interface{}{}}
 	s.ctl.site = "controller"
+	s.segCP = -1
 	cur = s
 	t0 := s.newThread("driver", body)
 	s.running = t0
@@ -307,6 +371,7 @@ func (s *Sched) reschedule(self *thread) {
 
 //go:norace
 func (s *Sched) rescheduleInner(self *thread) {
+	s.endSegment()
 	for {
 		s.steps++
 		if s.steps > s.cfg.MaxSteps {
@@ -329,6 +394,7 @@ func (s *Sched) rescheduleInner(self *thread) {
 				en = []*thread{q}
 				nopts = 1
 			} else if s.fireEarliestTimer(false) {
+				s.sleep = s.sleep[:0]
 				continue
 			} else {
 				s.res.Deadlock = true
@@ -340,14 +406,25 @@ func (s *Sched) rescheduleInner(self *thread) {
 		if timerOpt {
 			if s.choose("env:timer", 2, false, true) == 1 {
 				s.fireEarliestTimer(true)
+				s.sleep = s.sleep[:0] // a timer event may affect any thread
 				continue
 			}
 		}
 		k := 0
-		if nopts > 1 {
+		if s.cfg.POR && !s.noBranch {
+			k = s.choosePOR(en, selfEnabled)
+			if k < 0 {
+				// every enabled thread is asleep: this execution is a permutation of one already explored
+				s.res.Pruned = true
+				s.endExecution()
+				s.leave(self)
+				return
+			}
+		} else if nopts > 1 {
 			k = s.choose("thread", nopts, selfEnabled, false)
 		}
 		next := en[k]
+		s.beginSegment(next)
 		if next == self {
 			self.state = tReady
 			self.probe = nil
@@ -459,6 +536,7 @@ func Yield(what string) {
 	t.state = tReady
 	t.probe = nil
 	t.what = what
+	t.pend = append(t.pend[:0], Access{0, true}) // unknown effect: conflicts with everything
 	s.reschedule(t)
 }
 
@@ -478,6 +556,7 @@ func Block(what string, p Prober) {
 	t.state = tBlocked
 	t.probe = p
 	t.what = what
+	t.pend = append(t.pend[:0], Access{0, true})
 	s.reschedule(t)
 }
 
@@ -496,6 +575,7 @@ func Quiesce() {
 	t.state = tQuiesce
 	t.probe = nil
 	t.what = "quiesce"
+	t.pend = append(t.pend[:0], Access{0, true})
 	s.reschedule(t)
 }
 
@@ -511,7 +591,9 @@ func Choose(kind string, n int) int {
 	if s.aborting || s.ending {
 		return 0
 	}
-	return s.choose("env:"+kind, n, false, true)
+	c := s.choose("env:"+kind, n, false, true)
+	s.noteEnvChoice()
+	return c
 }
 
 // ChooseFree is an environment decision whose alternatives are all free of cost (used for
@@ -526,7 +608,9 @@ func ChooseFree(kind string, n int) int {
 	if s.aborting || s.ending {
 		return 0
 	}
-	return s.choose("free:"+kind, n, false, false)
+	c := s.choose("free:"+kind, n, false, false)
+	s.noteEnvChoice()
+	return c
 }
 
 // RecordPanic lets an HTTP-handler boundary (memnet) report a recovered panic.
@@ -606,4 +690,322 @@ func SetBranching(on bool) {
 		return
 	}
 	s.noBranch = !on
+}
+
+// ---- partial-order reduction: footprints and sleep sets ---------------------------------
+
+//go:norace
+func (s *Sched) beginSegment(t *thread) {
+	s.segOwner = t
+	s.seg = append(s.seg[:0], t.pend...)
+	t.pend = nil
+}
+
+// endSegment is called when the running thread reaches its next scheduling point (or exits):
+// the transition is complete, its footprint is known.
+//
+//go:norace
+func (s *Sched) endSegment() {
+	if s.segOwner == nil {
+		return
+	}
+	wild := false
+	for _, a := range s.seg {
+		if a.Obj == 0 {
+			wild = true
+		}
+	}
+	if s.segCP >= 0 && s.segCP < len(s.trace) {
+		s.trace[s.segCP].Wild = wild
+		s.trace[s.segCP].Done = true
+	}
+	s.segCP = -1
+	if len(s.sleep) > 0 {
+		kept := s.sleep[:0]
+		for _, sl := range s.sleep {
+			if sl.Thread == s.segOwner.id || wild {
+				continue
+			}
+			u := s.threadByID(sl.Thread)
+			if u == nil || u.state == tDone {
+				continue
+			}
+			if u.pend.Conflicts(s.seg) || u.held.Conflicts(s.seg) {
+				continue // dependent: wake it
+			}
+			kept = append(kept, sl)
+		}
+		s.sleep = kept
+	}
+	s.segOwner = nil
+}
+
+//go:norace
+func (s *Sched) threadByID(id int) *thread {
+	if id >= 0 && id < len(s.threads) {
+		return s.threads[id]
+	}
+	return nil
+}
+
+//go:norace
+func (s *Sched) asleep(id int) bool {
+	for _, sl := range s.sleep {
+		if sl.Thread == id {
+			return true
+		}
+	}
+	return false
+}
+
+// choosePOR is the thread choice under sleep sets. The recorded index refers to the full enabled
+// list (stable under replay); alternatives that are asleep are never taken by default.
+//
+//go:norace
+func (s *Sched) choosePOR(en []*thread, selfEnabled bool) int {
+	idx := len(s.trace)
+	if len(en) == 1 {
+		// never a recorded choice point (exactly as without POR)
+		if s.asleep(en[0].id) {
+			return -1
+		}
+		return 0
+	}
+	forced := idx < len(s.cfg.Prefix)
+	if forced && s.cfg.SleepAt == idx && s.cfg.Sleep != nil {
+		s.sleep = append(s.sleep[:0], s.cfg.Sleep...)
+	}
+	def := -1
+	for i, t := range en {
+		if !s.asleep(t.id) {
+			def = i
+			break
+		}
+	}
+	c := def
+	if forced {
+		c = s.cfg.Prefix[idx]
+		if c >= len(en) || c < 0 {
+			s.diverge(fmt.Sprintf("choice %d: replayed thread index %d out of range (n=%d)", idx, c, len(en)))
+			c = 0
+		}
+	} else if def < 0 {
+		return -1
+	}
+	ids := make([]int, len(en))
+	for i, t := range en {
+		ids[i] = t.id
+	}
+	cp := ChoicePoint{Kind: "thread", N: len(en), Chosen: c, Preempt: selfEnabled, Threads: ids}
+	if len(s.sleep) > 0 {
+		cp.Sleep = append([]Sleeper(nil), s.sleep...)
+	}
+	s.trace = append(s.trace, cp)
+	s.segCP = idx
+	return c
+}
+
+// Touch adds an access to the footprint of the transition that is executing (for effects that
+// are not scheduling points themselves: unlocks, context cancellation, harness flags ...).
+//
+//go:norace
+func Touch(obj uintptr, write bool) {
+	s := cur
+	if s == nil || !s.cfg.POR {
+		return
+	}
+	s.seg = append(s.seg, Access{obj, write})
+}
+
+// TouchAll marks the executing transition as conflicting with everything.
+//
+//go:norace
+func TouchAll() { Touch(0, true) }
+
+// YieldObj is Yield with a declared footprint.
+//
+//go:norace
+func YieldObj(what string, obj uintptr, write bool) {
+	s := cur
+	if s == nil {
+		return
+	}
+	if s.inAbort(false) {
+		return
+	}
+	t := s.running
+	t.steps++
+	t.state = tReady
+	t.probe = nil
+	t.what = what
+	t.pend = t.pend[:0]
+	if obj != 0 {
+		t.pend = append(t.pend, Access{obj, write})
+	}
+	s.reschedule(t)
+}
+
+// BlockObj is Block with a declared footprint.
+//
+//go:norace
+func BlockObj(what string, p Prober, obj uintptr, write bool) {
+	s := cur
+	if s == nil {
+		panic("vsched.BlockObj outside an execution: " + what)
+	}
+	if s.inAbort(true) {
+		return
+	}
+	t := s.running
+	t.steps++
+	t.state = tBlocked
+	t.probe = p
+	t.what = what
+	t.pend = append(t.pend[:0], Access{obj, write})
+	s.reschedule(t)
+}
+
+// BlockObjs is Block with several objects (select).
+//
+//go:norace
+func BlockObjs(what string, p Prober, objs []uintptr, blocking bool) {
+	s := cur
+	if s == nil {
+		panic("vsched.BlockObjs outside an execution: " + what)
+	}
+	if s.inAbort(blocking) {
+		return
+	}
+	t := s.running
+	t.steps++
+	if blocking {
+		t.state = tBlocked
+		t.probe = p
+	} else {
+		t.state = tReady
+		t.probe = nil
+	}
+	t.what = what
+	t.pend = t.pend[:0]
+	for _, o := range objs {
+		if o != 0 {
+			t.pend = append(t.pend, Access{o, true})
+		}
+	}
+	s.reschedule(t)
+}
+
+// PORActive reports whether sleep sets are maintained in this execution.
+//
+//go:norace
+func PORActive() bool {
+	s := cur
+	return s != nil && s.cfg.POR
+}
+
+// noteEnvChoice records the sleep set at an environment choice point (children inherit it) and
+// installs an injected sleep set when this is the node the explorer branched at.
+//
+//go:norace
+func (s *Sched) noteEnvChoice() {
+	if !s.cfg.POR || s.noBranch || len(s.trace) == 0 {
+		return
+	}
+	idx := len(s.trace) - 1
+	if idx < len(s.cfg.Prefix) && s.cfg.SleepAt == idx && s.cfg.Sleep != nil {
+		s.sleep = append(s.sleep[:0], s.cfg.Sleep...)
+	}
+	if len(s.sleep) > 0 {
+		s.trace[idx].Sleep = append([]Sleeper(nil), s.sleep...)
+	}
+}
+
+// ---- contexts -----------------------------------------------------------------------------
+
+// CtxID identifies a cancellable context by its Done channel (0: never cancelled).
+//
+//go:norace
+func CtxID(ctx interface{ Done() <-chan struct{} }) uintptr {
+	if ctx == nil {
+		return 0
+	}
+	ch := ctx.Done()
+	if ch == nil {
+		return 0
+	}
+	return chanPtr(ch)
+}
+
+// CtxRegisterChild records that cancelling parent also cancels child.
+//
+//go:norace
+func CtxRegisterChild(parent, child uintptr) {
+	s := cur
+	if s == nil || !s.cfg.POR || parent == 0 || child == 0 || parent == child {
+		return
+	}
+	if s.ctxKids == nil {
+		s.ctxKids = map[uintptr][]uintptr{}
+	}
+	s.ctxKids[parent] = append(s.ctxKids[parent], child)
+}
+
+// CtxCancelled declares that the executing transition cancels the context id (and its children).
+//
+//go:norace
+func CtxCancelled(id uintptr) {
+	s := cur
+	if s == nil || !s.cfg.POR || id == 0 {
+		return
+	}
+	s.seg = append(s.seg, Access{id, true})
+	for _, k := range s.ctxKids[id] {
+		CtxCancelled(k)
+	}
+}
+
+// Hold / Release maintain the set of locks held by the running thread.
+//
+//go:norace
+func Hold(obj uintptr, write bool) {
+	s := cur
+	if s == nil || !s.cfg.POR || s.running == nil {
+		return
+	}
+	s.running.held = append(s.running.held, Access{obj, write})
+}
+
+//go:norace
+func Release(obj uintptr) {
+	s := cur
+	if s == nil || !s.cfg.POR || s.running == nil {
+		return
+	}
+	h := s.running.held
+	for i := len(h) - 1; i >= 0; i-- {
+		if h[i].Obj == obj {
+			s.running.held = append(h[:i], h[i+1:]...)
+			return
+		}
+	}
+}
+
+// YieldObjs is YieldObj with several objects.
+//
+//go:norace
+func YieldObjs(what string, objs []uintptr) { BlockObjs(what, nil, objs, false) }
+
+// CtxFootprint returns id and all registered descendants.
+//
+//go:norace
+func CtxFootprint(id uintptr) []uintptr {
+	s := cur
+	if s == nil || id == 0 {
+		return nil
+	}
+	out := []uintptr{id}
+	for _, k := range s.ctxKids[id] {
+		out = append(out, CtxFootprint(k)...)
+	}
+	return out
 }
